@@ -189,6 +189,17 @@ int main() {
       } else if (c == "cond") {
         double v = o.adj ? (o.adj->x(), o.adj->least_squares->cond()) : o.base->cond();
         std::cout << "ok " << dhex(v) << "\n";
+      } else if (c == "envdiag") {
+        // diagnostic (search for failing inputs): pivots of the envelope L D L' decomposition
+        typedef AdjEnvelope<double, int, Exception::matvec> AE;
+        AE* e = o.adj ? (o.adj->x(), dynamic_cast<AE*>(o.adj->least_squares)) : dynamic_cast<AE*>(o.base.get());
+        if (!e) { std::cout << "exc harness not-envelope\n"; }
+        else {
+          e->defect();
+          std::cout << "ok";
+          for (int i = 1; i <= e->envelope.dim(); i++) std::cout << ' ' << dhex(e->envelope.diagonal(i));
+          std::cout << "\n";
+        }
       } else if (c == "minx") {
         int k = std::stoi(w[1]); o.minx.clear();
         for (int i = 0; i < k; i++) o.minx.push_back(std::stoi(w[2 + i]));
